@@ -102,6 +102,9 @@ func c02(r *Report) propMeta {
 	}
 	r.Census("abci-panics", fnSet(roots.ABCI), abciPanicTable, "a begin/end-block root")
 
+	r.NotAfter("resolve-before-expiry (invariant behind the accepted MustGetRequest panic)", "x/oracle.EndBlocker", CallEff("Keeper.ResolveRequest"), CallEff("Keeper.ProcessExpiredRequests"))
+	r.NotAfter("aggregate-before-expiry (invariant behind the accepted MustGetSigningAttempt panic)", "x/tss/keeper.Keeper.HandleSigningEndBlock", CallEff("Keeper.AggregatePartialSignatures"), CallEff("Keeper.HandleExpiredSignings"))
+
 	// R3 cross-module calls from end-block: commit boundary and recover barrier
 	r.Rule("C02.R3", "E6 conditional commit + recover barrier")
 	r.Commit("bandtss-create-signing", "x/bandtss/keeper.Keeper.createSigningRequest", "cache", roots, []string{"x/oracle/keeper.Keeper.safeCreateSigning", "x/tunnel/keeper.Keeper.ProduceActiveTunnelPacket"})
